@@ -172,6 +172,7 @@ type run struct {
 	events []map[string]any
 	hist   []string
 	bid    string
+	cur    *behaviour
 	slow   bool
 }
 
@@ -348,7 +349,9 @@ func minT(a, b time.Time) time.Time {
 
 func (r *run) violate(pred, what string) {
 	r.res.Violate("c04/api/"+pred, fmt.Sprintf("middleware/cache %s after %v: %s", pred, r.hist, what),
-		map[string]any{"driver": "c04-lease", "behaviour": r.bid, "history": r.hist, "events": r.events})
+		map[string]any{"driver": "c04-lease", "behaviour": r.bid, "history": r.hist, "events": r.events,
+			"input": map[string]any{"chain": r.in.Chain, "negKey": r.in.NegKey, "scopedKey": r.in.ScopedKey, "ecsCap": r.in.EcsCap,
+				"cutMax": r.in.CutMax, "behaviours": []any{map[string]any{"id": r.bid, "steps": r.cur.Steps[:len(r.hist)]}}}})
 }
 
 func argInt(a any) int64 {
@@ -643,6 +646,16 @@ func (r *run) complete(sl *slot, ev map[string]any, where string) []obsPiece {
 	if answered {
 		pcs = r.decode(sl.w.Msg(), sl.path, fresh)
 	}
+	if sl.failed && sl.lvl >= 3 {
+		// the outer chase loop retried the failed hop in a fork of level lvl-2: a piece
+		// it found binds that level and above, not the alias beside it
+		for i := range pcs {
+			if pcs[i].Key == sl.hop && !pcs[i].fresh {
+				pcs[i].Lvl = sl.lvl - 1
+				r.res.Count("outer_chase_retry_hits", 1)
+			}
+		}
+	}
 	r.checkPieces(pcs, sl.t0, where)
 	// effective leases: those of a failed deepest level are not inherited
 	var eff []lease
@@ -741,11 +754,11 @@ func (r *run) tick(d int64) {
 		for i := range sl.leases {
 			sl.leases[i].d = sl.leases[i].d.Add(-dd)
 		}
-		metas := []*middleware.ResponseMeta{&sl.meta}
+		metas := map[*middleware.ResponseMeta]bool{&sl.meta: true}
 		for _, m := range sl.metas {
-			metas = append(metas, m)
+			metas[m] = true
 		}
-		for _, m := range metas {
+		for m := range metas {
 			if c, k := m.Cut(); !c.IsZero() {
 				m.BoundCutFor(c.Add(-dd), k)
 			}
@@ -878,7 +891,7 @@ func (r *run) doStep(st step, exp *expState) (drift string, err error) {
 			sl.failed = true
 			sl.cmd <- command{}
 		}
-		failedHop := sl.hop
+		failedHop, failedLvl := sl.hop, sl.lvl
 		e, err := r.await(sl)
 		if err != nil {
 			return "", err
@@ -886,12 +899,15 @@ func (r *run) doStep(st step, exp *expState) (drift string, err error) {
 		// additionalAnswer: when an inner chase came back with the alias but not the
 		// address, the outer loop asks for the final target itself once more; the
 		// downstream that did not answer does not answer the retry either
-		for tries := 0; st.Op == "NoAnswer" && !e.done && e.hop == failedHop && tries < 12; tries++ {
+		for tries := 0; st.Op == "NoAnswer" && !e.done && tries < 12; tries++ {
 			r.res.Count("outer_chase_retries", 1)
 			sl.cmd <- command{}
 			if e, err = r.await(sl); err != nil {
 				return "", err
 			}
+		}
+		if st.Op == "NoAnswer" {
+			sl.hop, sl.lvl = failedHop, failedLvl
 		}
 		if e.done {
 			pcs := r.complete(sl, ev, where)
@@ -1100,6 +1116,7 @@ func (r *run) compareReply(exp *expState, pcs []obsPiece, answered bool, where s
 
 func (r *run) runBehaviour(b behaviour) error {
 	r.bid = b.ID
+	r.cur = &b
 	cfg := &config.Config{CacheSize: 1024, Expire: uint32(r.in.CutMax), RateLimit: 0, Prefetch: 0}
 	cfg.ECS.CacheLimitTTL.Duration = time.Duration(r.in.EcsCap) * time.Second
 	r.c = mcache.New(cfg)
@@ -1119,6 +1136,7 @@ func (r *run) runBehaviour(b behaviour) error {
 	r.hist = nil
 	start := r.res.NViolations()
 	began := time.Now()
+	slow := false
 	defer func() {
 		// release whatever is still parked so no goroutine outlives the behaviour
 		for _, sl := range r.slots {
@@ -1152,14 +1170,19 @@ func (r *run) runBehaviour(b behaviour) error {
 		if r.res.NViolations() > start {
 			return nil
 		}
-		if time.Since(began) > 400*time.Millisecond {
+		if !slow && time.Since(began) > 400*time.Millisecond {
 			// the real clock ran ahead of the virtual one by a visible fraction of a
-			// second: model comparison is no longer meaningful (predicates still are)
+			// second (loaded machine): comparing with the model is no longer
+			// meaningful -- the predicates, which use real instants, still are
+			slow = true
 			r.res.Count("slow_behaviours", 1)
-			return nil
 		}
 		if drift != "" {
-			r.res.DriftNote("[%s] %s", b.ID, drift)
+			if slow {
+				r.res.Count("slow_mismatch", 1)
+			} else {
+				r.res.DriftNote("[%s] %s", b.ID, drift)
+			}
 			return nil
 		}
 	}
